@@ -87,6 +87,7 @@ static void run_relay(void) {
   for (int r = 0; r < cur->n; r++) MV_CHECK(rv_resumed[r] == 1, "rendezvous %d: waiter passed %d times", r, rv_resumed[r]);
   MV_CHECK(u.th == 0, "uncondition variable still holds a thread at the end");
   mv_obs("relay n=%d", cur->n);
+  h_uncond_epilogue(&u);
   mv_finish();
 }
 static void run(int tier, int prog) {
@@ -101,6 +102,7 @@ static void run(int tier, int prog) {
   MV_CHECK(waits == signals && resumed == waits, "rendezvous mismatch: waits=%d signals=%d resumed=%d", waits, signals, resumed);
   MV_CHECK(u.th == 0, "uncondition variable still holds a thread at the end");
   mv_obs("n=%d waits=%d", cur->n, waits);
+  h_uncond_epilogue(&u);
   mv_finish();
 }
 static const char * const cover_names[] = { "a_thread_waited", "producer_signalled", "consumer_signalled", 0 };
